@@ -7,7 +7,7 @@ import subprocess
 
 from common import *
 
-PROTOS = ["ssh", "xmpp", "postgres", "socks4", "socks5", "proxy_protocol", "regexp", "clock", "ip", "wireguard", "dns", "rdp", "http", "tls", "winbox", "openvpn"]
+PROTOS = ["ssh", "xmpp", "postgres", "socks4", "socks5", "proxy_protocol", "regexp", "clock", "ip", "wireguard", "dns", "rdp", "http", "tls", "winbox", "openvpn", "quic"]
 CLAUSES = {"C14": ("V1",), "C06": ("M1", "M2", "M3", "M4"), "C04": ("A1", "A2")}
 
 
@@ -63,6 +63,10 @@ def run(res, pid, tier, protos=None):
                 last = [l for l in p.stdout.splitlines() if l.startswith("VECTOR ")]
                 if not last or ("fatal error" not in p.stderr and "panic" not in p.stderr and "signal" not in p.stderr and "out of memory" not in p.stderr):
                     raise Inconclusive(f"wire-run failed rc={p.returncode}: {p.stdout[-800:]} {p.stderr[-1500:]}")
+                # a death is the matcher's only if the dying goroutine was inside the code under test (or memory ran out)
+                first_block = p.stderr.split("\n\ngoroutine ")[0] + (p.stderr.split("\n\ngoroutine ")[1] if "\n\ngoroutine " in p.stderr else "")
+                if "out of memory" not in p.stderr and "github.com/mholt/caddy-l4/" not in first_block:
+                    raise Inconclusive(f"wire-run died outside the code under test: {p.stderr[-1500:]}")
                 idx = int(last[-1].split()[1])
                 line = open(os.path.join(d, "vec.ndjson")).read().splitlines()[idx]
                 fatal.append(dict(vector=json.loads(line), stderr=p.stderr[-1500:]))
